@@ -832,6 +832,7 @@ pub fn c02(ctx: &Ctx) -> Report {
         cfg.remount_at_quiescent = true;
         run_case(&mut rng, &sc, &cfg, &mut model, &mut rep, &format!("c02/{}/{k}", ctx.seed));
     }
+    kf_e5_name(&mut rep, &mut rng, &mut model);
     finish(rep, &model, "histories of create/write/truncate/append/delete/mkdir over pre-populated trees (nested directories, long-name entries, deleted slots, fragmented chains); every 15 operations and at the end all files are closed, the medium is dumped by the independent Lean FAT reader and compared entry for entry (names, attributes, sizes, raw creation and write stamps, content digests) with the reference tree, and a fresh VolumeManager lists and reads everything back; distinct = histories")
 }
 
@@ -897,6 +898,8 @@ pub fn c06(ctx: &Ctx) -> Report {
         cfg.tree_at_quiescent = true;
         run_case(&mut rng, &sc, &cfg, &mut model, &mut rep, &format!("c06/{}/{k}", ctx.seed));
     }
+    kf_e5_name(&mut rep, &mut rng, &mut model);
+    kf_lookup_past_end(&mut rep, &mut rng);
     finish(rep, &model, "directories built by the independent formatter (live / deleted / long-name / label slots, 1-3 clusters with fragmented chains, FAT16 roots of 16..512 entries, FAT32 roots at clusters 2,5,9) before and after histories of create/delete/mkdir; every listing (with and without long names), lookup and open_dir result is compared with the Lean model, and the independent Lean reader's view of the medium with the reference tree; distinct = histories")
 }
 
@@ -931,6 +934,7 @@ pub fn c08(ctx: &Ctx) -> Report {
         run_case(&mut rng, &sc, &cfg, &mut model, &mut rep, &format!("c08/{}/{k}", ctx.seed));
         reenter_case(&mut rng, &sc, &mut model, &mut rep, &format!("c08r/{}/{k}", ctx.seed));
     }
+    kf_open_root_stale(&mut rep, &mut rng);
     finish(rep, &model, "open/close histories over 14 limit configurations covering every value 1..8 for volumes, directories and files, with stale and never-issued handles passed to every call, id offsets near the u32 wrap; every handle value, error variant and has_open_handles answer compared with the Lean model; every public Result-returning method invoked from inside iterate_dir and iterate_dir_lfn callbacks must answer LockError and write nothing; distinct = histories")
 }
 
@@ -1173,4 +1177,73 @@ pub fn c11(ctx: &Ctx) -> Report {
     }
     rep.count_n("fault:single-fault-runs", sweeps);
     finish(rep, &model, "for each base history (FAT16 and FAT32, multi-cluster directories), the same history is re-run with a device failure injected at every single device-call index (read or write; a failed read scribbles the buffer), plus random multi-fault sequences; the faulty call must return an error (never Ok, never panic), the history then continues fault-free: every later result is compared with the byte-array model and the Lean model (which sees the same faults at the same call indices, reads compared too), fsck incl. unique names after every call; distinct = (history, fault placement) pairs")
+}
+
+
+// ------------------------------------------------------------------------------------------------
+// Scripted cases for the known findings (so that each run shows whether they are still present)
+// ------------------------------------------------------------------------------------------------
+
+/// C08: `open_root_dir` accepts a volume handle that is not open.
+pub fn kf_open_root_stale(rep: &mut Report, rng: &mut Rng) {
+    let sc = make_scenario(rng, &ScOpts { fat32: Some(false), big_tree: false, limits: Some((4, 4, 1)), ..Default::default() });
+    let mut sess = Session::new(sc.blocks.clone(), sc.limits, sc.id_offset);
+    let v = match sess.exec(&Op::OpenVolume(sc.vols[0].slot)).handle() { Some(h) => h, None => return };
+    sess.exec(&Op::CloseVolume(v));
+    let o = sess.exec(&Op::OpenRoot(v));
+    rep.cases += 1;
+    rep.oracle_checks += 1;
+    if o.res != "err BadHandle" {
+        rep.violation("impl-vs-spec", "open-root-on-closed-volume", &format!("open_root_dir on a volume handle that has been closed returned `{}` (expected BadHandle)", o.res),
+            J::obj(vec![("ops", J::Arr(vec![J::s("open_volume"), J::s(format!("close_volume {v}")), J::s(format!("open_root {v}  =>  {}", o.res))]))]));
+    }
+}
+
+/// C02 / C06: a name whose first character is U+00E5 is stored with first byte 0xE5 = "deleted".
+pub fn kf_e5_name(rep: &mut Report, rng: &mut Rng, model: &mut Model) {
+    let sc = make_scenario(rng, &ScOpts { fat32: Some(false), big_tree: false, limits: Some((4, 4, 1)), ..Default::default() });
+    let mut sess = Session::new(sc.blocks.clone(), sc.limits, sc.id_offset);
+    let v = match sess.exec(&Op::OpenVolume(sc.vols[0].slot)).handle() { Some(h) => h, None => return };
+    let d = match sess.exec(&Op::OpenRoot(v)).handle() { Some(h) => h, None => return };
+    let name = "\u{e5}BC.TXT".to_string();
+    let f = match sess.exec(&Op::OpenFile(d, name.clone(), Mode::ReadWriteCreate)).handle() { Some(h) => h, None => return };
+    sess.exec(&Op::Write(f, vec![1, 2, 3, 4]));
+    let c = sess.exec(&Op::CloseFile(f));
+    let l = sess.exec(&Op::List(d));
+    rep.cases += 1;
+    rep.oracle_checks += 1;
+    let shown = l.res.contains("e54243202020202054585420") || l.res.to_lowercase().contains("e5424320202020205458");
+    if c.is_ok() && !shown {
+        rep.violation("impl-vs-spec", "name-starting-0xE5-invisible", &format!("a file created as {:?}, written and closed successfully, is not in the directory listing (its first name byte 0xE5 marks the slot as deleted)", name),
+            J::obj(vec![("ops", J::Arr(vec![J::s("open_file <U+00E5>BC.TXT create"), J::s("write 4 bytes"), J::s("close_file => ok"), J::s(format!("list => {}", truncate(&l.res, 200)))]))]));
+    }
+    let _ = model;
+}
+
+/// C06: lookup continues into later blocks after the end-of-directory marker.
+pub fn kf_lookup_past_end(rep: &mut Report, rng: &mut Rng) {
+    let mut sc = make_scenario(rng, &ScOpts { fat32: Some(false), big_tree: false, limits: Some((4, 4, 1)), ..Default::default() });
+    // put a plausible stale entry into the second block of the FAT16 root, behind the end marker of block 0
+    let l = sc.vols[0].layout.clone();
+    if l.root_blocks < 2 {
+        return;
+    }
+    let mut blk = [0u8; 512];
+    blk[0..11].copy_from_slice(b"GHOST   BIN");
+    blk[11] = 0x20;
+    blk[26] = 3;
+    blk[28] = 9;
+    // block 0 must end with zero slots for the end marker to be in block 0: the sample tree is small
+    sc.blocks.insert(l.root_start + 1, blk);
+    let mut sess = Session::new(sc.blocks.clone(), sc.limits, sc.id_offset);
+    let v = match sess.exec(&Op::OpenVolume(sc.vols[0].slot)).handle() { Some(h) => h, None => return };
+    let d = match sess.exec(&Op::OpenRoot(v)).handle() { Some(h) => h, None => return };
+    let listing = sess.exec(&Op::List(d));
+    let found = sess.exec(&Op::Find(d, "GHOST.BIN".into()));
+    rep.cases += 1;
+    rep.oracle_checks += 1;
+    if found.is_ok() && !listing.res.contains(&hex(b"GHOST   BIN")) {
+        rep.violation("impl-vs-spec", "lookup-past-end-marker", "the listing stops at the end-of-directory marker in the first block but lookup finds a stale entry in the next block: a name the listing does not contain is found",
+            J::obj(vec![("ops", J::Arr(vec![J::s("image: root block 0 ends with 0x00 slots, root block 1 holds a stale entry GHOST.BIN"), J::s(format!("list => {}", truncate(&listing.res, 120))), J::s(format!("find GHOST.BIN => {}", truncate(&found.res, 120)))]))]));
+    }
 }
